@@ -54,15 +54,17 @@ Theorem C07_char_rejects : forall v, (forall c, v <> GStr [c]) -> exists e, pars
 Proof. exact char_rejects. Qed.
 
 (* --- ID -------------------------------------------------------------------- *)
-Theorem C07_id_exact : forall v s,
-    known_parse SID v = 0%N -> (parse_id v = Ok s <-> denotes_id v s).
+Theorem C07_id_exact : forall v s, parse_id v = Ok s <-> denotes_id v s.
 Proof. exact id_exact. Qed.
 Theorem C07_id_rejects : forall v, (forall s, ~ denotes_id v s) -> exists c, parse_id v = Err c.
 Proof. exact id_rejects. Qed.
-(* known finding: an integer above i64::MAX denotes an ID and is rejected *)
-Theorem C07_id_above_i64_refuted :
-  exists v s, wf_gv v = true /\ denotes_id v s /\ parse_id v = Err E_TYPE /\ known_parse SID v = 2%N.
-Proof. exact id_above_i64_refuted. Qed.
+(* repaired finding: every integer (also above i64::MAX) is accepted as its decimal text;
+   no input lies in the former known class 2 *)
+Theorem C07_id_accepts_all_integers :
+  (forall z, parse_id (GInt z) = Ok (dec_Z z)) /\
+  (forall sc v, known_parse sc v <> 2%N) /\
+  parse_id (GInt 9223372036854775808) = Ok (dec_Z 9223372036854775808).
+Proof. exact id_accepts_all_integers. Qed.
 
 (* --- derived enums (any item table with distinct names) ---------------------- *)
 Theorem C07_enum_exact : forall items v x,
@@ -103,7 +105,7 @@ Proof. exact float_nonfinite_lost. Qed.
 
 (* --- every scalar in one statement (what the correspondence files evaluate) --- *)
 (* input coercion of every non-float scalar answers what the specification
-   demands, for every value, outside the known class (ID, integer > i64::MAX) *)
+   demands, for every value (no known class is left among the non-float scalars) *)
 Theorem C07_parse_meets_spec : forall sc v,
     is_float_scalar sc = false -> wf_gv v = true -> known_parse sc v = 0%N ->
     match sc with SInt id => row_ty id <> None | _ => True end ->
@@ -154,7 +156,7 @@ Print Assumptions C07_char_exact.
 Print Assumptions C07_char_rejects.
 Print Assumptions C07_id_exact.
 Print Assumptions C07_id_rejects.
-Print Assumptions C07_id_above_i64_refuted.
+Print Assumptions C07_id_accepts_all_integers.
 Print Assumptions C07_enum_exact.
 Print Assumptions C07_enum_rejects.
 Print Assumptions C07_f64_accepts.
